@@ -15,7 +15,7 @@ from vf.sim.scenario import Sim
 LEVEL = "exploration"
 RULE = ("scripts over 1-3 concurrent send_messages_await_response_complex calls (own or shared response types out of 3, timeouts 0.5/1/2 s, "
         "harness-owned accept/stop predicates keyed by bits in the message) with events {start call i (+ device replies emitted the moment the "
-        "request is received = readable in the very next loop turn), arrival(type, accept bits, stop bits), cancel call i, toggle the library's debug flag, add a passive subscriber on a response type / call its remove function (repeatedly), close(eof|garbage|force|peer DisconnectRequest|the next write raising at the transport|the next send refused by the socket; garbage and peer optionally in the same chunk as the answers before them)} "
+        "request is received = readable in the very next loop turn), arrival(type, accept bits, stop bits), cancel call i, toggle the library's debug flag, add a passive subscriber on a response type / call its remove function (repeatedly), close(eof|ETIMEDOUT from the kernel|garbage|force|peer DisconnectRequest|the next write raising at the transport|the next send refused by the socket; garbage and peer optionally in the same chunk as the answers before them)} "
         "and gaps {same instant, same chunk as the previous arrival (one TCP segment), +1 ms, exactly at call j's timeout instant}; instant replies optionally coalesced into one chunk; seeded random scripts, all orderings of small event sets at thorough; "
         "plus the public wrappers, plus (lifecycle engine) calls outstanding on a stalled connect with disconnect() on top when the link is lost: every one ends in that instant. Oracle: per-call sequential model over the recorded arrival history (process_packet order), exact timeout "
         "instant, connection's error at close, cancellation; leftovers after every ending: predicates never invoked after the call returned, "
@@ -166,6 +166,10 @@ def run_script(script: dict[str, Any]) -> dict[str, Any]:
                 cause = ev[2]
                 if cause == "eof":
                     dconn.eof(t - sim.clock)
+                elif cause == "etimedout":
+                    # the kernel gives up on an unreachable peer (retransmissions exhausted / keep-alive probes unanswered): recv() fails with
+                    # ETIMEDOUT, which Python raises as the builtin TimeoutError -- the very class asyncio.TimeoutError is an alias of
+                    dconn.rst(t - sim.clock, exc=TimeoutError(110, "Connection timed out"))
                 elif cause in ("garbage", "peer"):
                     item = ("raw", b"\x42\x42\x42" if script["framing"] == "plain" else b"\x07\x00\x00") if cause == "garbage" else \
                         ("msg", dev.proto.id_of("DisconnectRequest"), b"")
@@ -365,7 +369,7 @@ def gen_script(rng: Any, framing: str) -> dict[str, Any]:
         elif r < 0.9:
             events.append([gap, "debug", rng.random() < 0.7])
         else:
-            cause = rng.choice(["eof", "garbage", "force", "peer", "garbage", "peer", "writeraise", "sendfail"])
+            cause = rng.choice(["eof", "garbage", "force", "peer", "garbage", "peer", "writeraise", "sendfail", "etimedout"])
             if cause in ("garbage", "peer") and events[-1][1] == "arrive" and rng.random() < 0.6:
                 gap = "chunk"
             events.append([gap, "close", cause])
@@ -461,7 +465,7 @@ def shard(ctx: Ctx) -> None:
         wrappers(ctx)
     # the request's own write fails (transport raises / kernel refuses), alone and with another call already outstanding
     idx = 0
-    for cause in ("writeraise", "sendfail"):
+    for cause in ("writeraise", "sendfail", "etimedout"):
         for first in (True, False):
             for gap in ("0", "ms"):
                 for shared in (True, False):
